@@ -79,6 +79,34 @@ fn judge_roots(coef: &[C], got: &[C], refine: bool, has_large: bool, acc: &mut A
     let thr = if !refine && n <= 2 { BE_QUADRATIC } else if !refine && n == 3 { BE_CARDANO } else { thr };
     acc.worst(name, worst, || format!("{} coeffs={:?}", tag, coef));
     ensure!(worst <= thr, "a returned value is not a root: backward error {:e} > {:e}; returned {:?}", worst, thr, got);
+    // counted with multiplicity, without a list of the roots: when EVERY returned value is a well-conditioned simple root
+    // ( pointwise condition number sum|a_k||z|^k / ( |z| |p'(z)| ) <= 1e4 ), none of them can stand twice for a root that is
+    // missing, so the polynomial rebuilt from the values must be the given one. A value next to a multiple or clustered root has a
+    // small p' and switches the test off.
+    if n >= 2 && coef[n] != (0.0, 0.0) {
+        let amax = coef.iter().map(|a| cabs(*a)).fold(0.0, f64::max);
+        let der: Vec<C> = (1..=n).map(|k| cmul((k as f64, 0.0), coef[k])).collect();
+        let well = got.iter().all(|&z| {
+            let m = cabs(z);
+            if m == 0.0 {
+                return coef[1] != (0.0, 0.0) && cabs(coef[1]) >= 1e-4 * amax;
+            }
+            let mut sum = 0.0;
+            let mut pw = 1.0;
+            for a in coef.iter() {
+                sum += cabs(*a) * pw;
+                pw *= m;
+            }
+            sum.is_finite() && sum <= 1e4 * m * cabs(horner(&der, z))
+        });
+        if well {
+            let back = expand(coef[n], got);
+            let e = (0..=n).map(|i| cabs(csub(back[i], coef[i]))).fold(0.0, f64::max) / amax;
+            acc.hit("rebuilt polynomial compared (all returned values well-conditioned simple roots)");
+            acc.worst("rebuilt_polynomial_error_well_conditioned", e, || format!("{} coeffs={:?}", tag, coef));
+            ensure!(e <= 1e-6, "every returned value is a well-conditioned simple root, yet the polynomial rebuilt from them differs from the given one by {:e} (a root is missing, another stands twice): returned {:?}", e, got);
+        }
+    }
     Ok(())
 }
 
@@ -1318,6 +1346,7 @@ fn main() {
     ctx.threshold("backward_error_unrefined_closed_form_degree_1_2", BE_QUADRATIC);
     ctx.threshold("backward_error_unrefined_cardano_degree_3", BE_CARDANO);
     ctx.threshold("rebuilt_polynomial_error_simple_roots", 1e-9);
+    ctx.threshold("rebuilt_polynomial_error_well_conditioned", 1e-6);
     ctx.require(&["repeated root", "root at zero", "non-real root", "iterative path (degree >= 4)", "closed-form path (degree <= 3)", "vanishing inner coefficient", "conjugate pair", "matched against the true roots", "degree 8..12", "coefficients of mixed scale (ratio up to 1e6)", "coefficient written through IndexMut after a roots() call", "history state of degree >= 4", "nearly binomial polynomial", "clustered roots", "multiple root with inexact coefficients", "all roots small", "cubic with b^2 = 3ac exactly and three simple roots"]);
     for k in 1..=ctx.pick(7, 11) {
         multiset_space(&ctx, k);
